@@ -4,6 +4,7 @@ mod c0203;
 mod c04;
 mod c0506;
 mod c13;
+mod c19;
 mod c32;
 mod dbops;
 mod storops;
@@ -21,6 +22,7 @@ fn main() {
         "C05" => c0506::run_c05(&args),
         "C06" => c0506::run_c06(&args),
         "C13" => c13::run(&args),
+        "C19" => c19::run(&args),
         "C32" => c32::run(&args),
         other => engine::machinery_failure(&format!("core_checks: unknown property {other}")),
     };
